@@ -10,7 +10,7 @@
 (* Composes the value-level rounding operators (TimeOfDay, DateTimeArith,   *)
 (* Instant) with the writer (FormatOps).                                    *)
 (***************************************************************************)
-EXTENDS DateTimeArith, FormatOps
+EXTENDS DateTimeArith, Duration, FormatOps
 
 \* precision -> (unit, increment) per ToSecondsStringPrecisionRecord
 PrecUnit(p) == CASE p = -2 -> "minute" [] p = 0 -> "second" [] p \in 1..3 -> "millisecond" [] p \in 4..6 -> "microsecond" [] OTHER -> "nanosecond"
@@ -32,6 +32,14 @@ CaseFor(c, mode) ==
          IN [op |-> "Fmt.Instant", args |-> [v |-> c.i] @@ Opts(c, mode),
              \* a rounded value beyond the limit: Temporal's own text is an assertion (! CreateTemporalInstant) - any non-panicking outcome
              out |-> IF r.kind = "ok" THEN Ok(Chars(FmtInstant(r.val, p, <<>>))) ELSE [kind |-> "any"]]
+    [] c.ty = "Duration" ->
+         \* Duration.toString: the time part (hours..nanoseconds as one exact total; days are not part of it) is rounded with the signed
+         \* rule and re-balanced up to the larger of the default largest unit and seconds; precision auto / 9 digits print the fields as they are
+         LET t == RoundBig(TimeNs(c.D), IncNs(inc, u), mode)
+             A == IF p = 9 THEN AbsDur(c.D) ELSE BalanceWith(AbsDur(c.D), SplitSec(Abs(t)))
+             R == IF DurSign(c.D) = -1 THEN NegDur(A) ELSE A
+         IN [op |-> "Fmt.Duration", args |-> [v |-> c.D] @@ Opts(c, mode),
+             out |-> IF p = -2 THEN ErrRange ELSE IF ~ValidDur(R) THEN ErrRange ELSE Ok(Chars(FmtDurationA(c.D, A, p)))]
     [] c.ty = "ZonedDateTime" ->
          LET r == InstantRound(c.i, u, inc, mode)
              v == [ns |-> c.i, tz |-> Chars(c.tz), cal |-> "iso8601"]
@@ -41,7 +49,7 @@ CaseFor(c, mode) ==
 \* class label: type / precision / rounding class of the sub-precision remainder / mode
 RemCls(c) ==
   LET n == IncNs(PrecInc(c.p), PrecUnit(c.p))
-      x == IF c.ty \in {"PlainTime", "PlainDateTime"} THEN TimeNsOf(c.t) ELSE c.i
+      x == IF c.ty \in {"PlainTime", "PlainDateTime"} THEN TimeNsOf(c.t) ELSE IF c.ty = "Duration" THEN TimeNs(c.D) ELSE c.i
   IN RoundCls(x, n)
 ClsOf(c, mode) == c.ty \o "/p" \o ToString(c.p) \o "/" \o RemCls(c) \o "/" \o mode
 
